@@ -9,12 +9,12 @@ import time
 from . import common as C
 from .wrapcheck import run_cases
 
-ALL_SLOTS = ["p", "s1", "s2", "a", "m", "mi", "i"]
+ALL_SLOTS = ["p", "s1", "s2", "a", "m", "mi", "mm", "i"]
 
 
-def write_cfg(d, n, m, mi, slots, sample, toggles=(), emit=True, fuel=60):
+def write_cfg(d, n, m, mi, slots, sample, toggles=(), emit=True, fuel=60, mm=0):
     C.copy_specs(d, ["DeepCopy.tla"])
-    lines = ["SPECIFICATION Spec", "CONSTANTS", "  N = %d" % n, "  M = %d" % m, "  MI = %d" % mi,
+    lines = ["SPECIFICATION Spec", "CONSTANTS", "  N = %d" % n, "  M = %d" % m, "  MI = %d" % mi, "  MM = %d" % mm,
              "  Slots = {%s}" % ", ".join('"%s"' % s for s in slots), "  Fuel = %d" % fuel, "  SampleN = %d" % sample]
     for t in ("BUG_IfaceNoMemo", "BUG_MapMemoLate"):
         lines.append("  %s = %s" % (t, "TRUE" if t in toggles else "FALSE"))
@@ -24,9 +24,9 @@ def write_cfg(d, n, m, mi, slots, sample, toggles=(), emit=True, fuel=60):
     open(os.path.join(d, "D.cfg"), "w").write("\n".join(lines) + "\n")
 
 
-def emit(scratch, tag, n, m, mi, slots, sample, seed, toggles=(), do_emit=True, fuel=60):
+def emit(scratch, tag, n, m, mi, slots, sample, seed, toggles=(), do_emit=True, fuel=60, mm=0):
     d = scratch.sub(tag)
-    write_cfg(d, n, m, mi, slots, sample, toggles, do_emit, fuel)
+    write_cfg(d, n, m, mi, slots, sample, toggles, do_emit, fuel, mm)
     res = C.run_tlc(d, "DeepCopy", "D.cfg", timeout=3000, extra=["-seed", str(seed)])
     seen = set()
     for line in res.out.splitlines():
@@ -43,7 +43,7 @@ def nontrivial(c):
         for r in n.values():
             if r["t"] != "nil":
                 refs[(r["t"], r["v"])] = refs.get((r["t"], r["v"]), 0) + 1
-    for r in [x for mp in c["maps"] for x in mp.values()] + c["imaps"]:
+    for r in [x for mp in c["maps"] for x in mp.values()] + c["imaps"] + [x for mp in c.get("mmaps", []) for x in mp.values()]:
         if r["t"] != "nil":
             refs[(r["t"], r["v"])] = refs.get((r["t"], r["v"]), 0) + 1
     return any(v >= 2 for v in refs.values()) or ("node", 1) in refs
@@ -67,18 +67,22 @@ def run_check(pid, tier, replay=None):
         quick = tier == "quick"
         if quick:
             sl = ["i", "mi"] + rng.sample(["p", "s1", "a", "m"], 2)
-            plan = [(2, 1, 1, sl, 4), (3, 0, 1, ["p", "i"], 1), (3, 1, 0, ["s1", "m"], 1), (1, 1, 1, ALL_SLOTS, 1)]
+            plan = [(2, 1, 1, sl, 4), (3, 0, 1, ["p", "i"], 1), (3, 1, 0, ["s1", "m"], 1), (1, 1, 1, ALL_SLOTS, 1, 1),
+                    (1, 2, 0, ["m", "mm"], 1, 1), (2, 1, 0, ["p", "mm"], 1, 2)]
         else:
             plan = [(2, 1, 1, ["p", "s1", "m", "mi", "i"], 1), (2, 1, 1, ["s2", "a", "m", "mi", "i"], 1), (3, 0, 1, ["p", "i"], 1),
-                    (3, 1, 0, ["s1", "m"], 1), (3, 1, 1, ["p", "m", "i"], 12), (1, 1, 1, ALL_SLOTS, 1)]
+                    (3, 1, 0, ["s1", "m"], 1), (3, 1, 1, ["p", "m", "i"], 12), (1, 1, 1, ALL_SLOTS, 1, 1),
+                    (1, 2, 0, ["m", "mm"], 1, 1), (2, 2, 0, ["p", "mm"], 1, 2), (2, 2, 0, ["m", "mm", "i"], 8, 1)]
         runs, cases, states, trans = [], [], 0, 0
-        for i, (n, m, mi, slots, sample) in enumerate(plan):
-            cs, res = emit(scratch, "dc%d" % i, n, m, mi, slots, sample, seed)
+        for i, row in enumerate(plan):
+            n, m, mi, slots, sample = row[:5]
+            mm = row[5] if len(row) > 5 else 0
+            cs, res = emit(scratch, "dc%d" % i, n, m, mi, slots, sample, seed, mm=mm)
             if not res.ok:
                 raise C.Inconclusive("DeepCopy.tla violates its own properties (%s): specification alarm\n%s" % (res.violated, res.out[-1500:]))
             states += res.distinct
             trans += res.generated
-            runs.append({"nodes": n, "maps": m, "imaps": mi, "slots": slots, "graphs": res.distinct, "emitted_one_in": sample, "cases": len(cs)})
+            runs.append({"nodes": n, "maps": m, "imaps": mi, "mmaps": mm, "slots": slots, "graphs": res.distinct, "emitted_one_in": sample, "cases": len(cs)})
             cases += cs
         selftest = {}
         for tog in ("BUG_IfaceNoMemo", "BUG_MapMemoLate"):
